@@ -501,6 +501,8 @@ class Node:
         # strings
         seen_keys = set()  # type: Set[str]
         for item in attr_node.seq_items():
+            if not item.is_mapping() or not item.has_attribute(key_attribute):
+                return
             key_attr_node = item.get_attribute(key_attribute)
             if not key_attr_node.is_scalar(str):
                 raise SeasoningError('Expected a string here')
@@ -519,13 +521,13 @@ class Node:
             # we've already checked that it's a SequenceNode above
             key_node = item.get_attribute(key_attribute).yaml_node
             item.remove_attribute(key_attribute)
-            if value_attribute is not None:
+            if (
+                    value_attribute is not None and
+                    item.has_attribute(value_attribute) and
+                    len(item.yaml_node.value) == 1):
+                # no other attributes, use short form
                 value_node = item.get_attribute(value_attribute).yaml_node
-                if len(item.yaml_node.value) == 1:
-                    # no other attributes, use short form
-                    mapping_values.append((key_node, value_node))
-                else:
-                    mapping_values.append((key_node, item.yaml_node))
+                mapping_values.append((key_node, value_node))
             else:
                 mapping_values.append((key_node, item.yaml_node))
 
